@@ -2,7 +2,8 @@
 (* C12 - cluster artifacts are mutually consistent and tamper-evident.
 
    Life-cycle of the artifacts of one cluster:
-       Create(cfg) -> Load(view) -> Verify -> { Keystores(i) | Deposits(i) | Combine(S) | Tamper(leaf,kind) -> LoadT -> VerifyT }*
+       Create(cfg) -> Load(view) -> Verify -> { Keystores(i) | Deposits(i) | Combine(S) | Tamper(leaf,kind) -> LoadT -> VerifyT
+                                              | Tamper(leaf,kind) -> CombineT }*
    An artifact (cluster-lock.json / cluster-definition.json) is an abstract tree of LEAF FIELDS.  The tables DefRows and
    LockRows list, per format version v1.0 .. v1.11 (indices 0..11), every leaf of the JSON file with its DECLARED
    protection.  They are transcribed from
@@ -298,6 +299,16 @@ VerifyT(res) ==
   /\ cur.state = "loaded" /\ res \in {"intact", "detected"}
   /\ Expected # "either" => res = Expected
   /\ cur' = [cur EXCEPT !.state = "done"] /\ verdict' = res
+  /\ UNCHANGED <<cfg, phase, lk, obs>>
+
+\* the altered lock file sits in ONE node directory of a created cluster (the others hold the pristine file) and the
+\* node directories are handed to `combine` (cmd/combine loadManifest loads and verifies the lock of EVERY directory
+\* before any share is used): recombination goes through (ok) or is refused.  This is the same verification reached
+\* through another door, so the same expectation applies.
+CombineT(ok) ==
+  /\ cur.state = "altered" /\ cfg.src = "create" /\ cfg.art = "lock"
+  /\ Expected # "either" => (ok <=> Expected = "intact")
+  /\ cur' = [cur EXCEPT !.state = "done"] /\ verdict' = IF ok THEN "intact" ELSE "detected"
   /\ UNCHANGED <<cfg, phase, lk, obs>>
 
 -----------------------------------------------------------------------------------------------------------------
